@@ -49,6 +49,10 @@ pub struct Scn {
     /// only completes with the carousel repetition this many seconds later (0 = single-packet FDT, no loss)
     #[serde(default)]
     pub fdt_spread_s: u64,
+    /// with fdt_spread_s: the packet that completes the instance carries no EXT_TIME (the other packets of the
+    /// instance do): the offset observed earlier for this instance still applies
+    #[serde(default)]
+    pub completing_packet_unstamped: bool,
 }
 
 /// The datagram as it is delivered: flute's own, or with EXT_TIME re-encoded as SCT-High only.
@@ -83,6 +87,8 @@ pub fn gen(rng: &mut Rng, _tier: Tier) -> Scn {
         offsets_s.push(if rng.chance(0.5) { v } else { -v });
     }
     let check = rng.chance(0.85);
+    // Expires = 4294967295 exactly (the largest 32-bit NTP second, 2036-02-07): publish second T0 -> this duration
+    let duration_s = if rng.chance(0.03) { 4_294_967_295u64 - 2_208_988_800 - crate::sdrv::t0_us() / 1_000_000 } else { duration_s };
     // with the check disabled expiry is ignored whatever the Expires value is, also one beyond the 32-bit NTP
     // era (2036-02-07), which flute's sender writes for a lifetime of decades
     let duration_s = if !check && rng.chance(0.3) { *rng.pick(&[400_000_000u64, 631_152_000, 3_155_760_000]) } else { duration_s };
@@ -103,6 +109,7 @@ pub fn gen(rng: &mut Rng, _tier: Tier) -> Scn {
         id_wrap: rng.chance(0.4),
         a_before_newer: rng.chance(0.3),
         fdt_spread_s: if rng.chance(0.2) { *rng.pick(&[3u64, 5, 9]) } else { 0 },
+        completing_packet_unstamped: rng.chance(0.4),
     }
 }
 
@@ -128,10 +135,18 @@ fn receive_with_offset(scn: &Scn, ctx: &Ctx, sess: &Session, offset_s: i64, t_f:
         .collect();
     dl.sort_by_key(|x| (x.0, x.1, x.2.idx));
     let second_phase = t_f.max(t_o);
+    // the FDT packet that completes the instance (spread variant): the last FDT packet delivered
+    let completing = if lost.is_some() && scn.completing_packet_unstamped && scn.sct { dl.iter().filter(|x| x.2.dec.toi == 0).map(|x| x.2.idx).max() } else { None };
     for (t, _, p) in dl {
         let jump = if scn.jump_s != 0 && t >= second_phase && t_f != t_o { scn.jump_s } else { 0 };
         rr.offset_us = (offset_s + jump) * 1_000_000;
-        rr.push(&ep, &on_wire(scn, p), t);
+        if Some(p.idx) == completing {
+            let mut b = wire::to_build(&p.dec);
+            b.sct = None;
+            rr.push(&ep, &wire::encode(&b), t);
+        } else {
+            rr.push(&ep, &on_wire(scn, p), t);
+        }
     }
     let r = completes_exact(&monitor, &sess.objs[0]);
     let trace: Vec<String> = monitor
@@ -451,6 +466,7 @@ impl Prop for C19 {
         push(&|n| n.id_wrap = false);
         push(&|n| n.a_before_newer = false);
         push(&|n| n.fdt_spread_s = 0);
+        push(&|n| n.completing_packet_unstamped = false);
         push(&|n| n.fdt_delay_us = 0);
         push(&|n| n.scheme = Scheme::NoCode);
         push(&|n| n.inband = true);
